@@ -36,16 +36,23 @@ pub assume_specification<T> [Option::<T>::unwrap_unchecked] (o: Option<T>) -> (r
     requires o is Some,
     ensures r == o.unwrap();
 
-/// every `str` is a byte slice, and slice lengths fit in usize (vstd states this for slices only)
+/// every `str` is a byte slice, and no Rust slice is longer than isize::MAX bytes (language guarantee)
 #[verifier::external_body]
 pub broadcast proof fn axiom_str_len_bound(s: &str)
-    ensures #[trigger] s.spec_bytes().len() <= usize::MAX, s@.len() <= s.spec_bytes().len(),
+    ensures #[trigger] s.spec_bytes().len() <= isize::MAX, s@.len() <= s.spec_bytes().len(),
+{
+}
+
+/// no Rust slice is longer than isize::MAX bytes (language guarantee; vstd only states usize::MAX)
+#[verifier::external_body]
+pub broadcast proof fn axiom_slice_len_bound(s: &[u8])
+    ensures #[trigger] s@.len() <= isize::MAX,
 {
 }
 
 /// (proved) the character view of a `str` is the decoding of its bytes, and its bytes are well-formed
 pub broadcast proof fn lemma_str_view_bytes(s: &str)
-    ensures #[trigger] decode_utf8(s.spec_bytes()) == s@, valid_utf8(s.spec_bytes()),
+    ensures decode_utf8(#[trigger] s.spec_bytes()) == s@, valid_utf8(s.spec_bytes()),
 {
     encode_utf8_decode_utf8(s@);
     encode_utf8_valid_utf8(s@);
@@ -70,6 +77,13 @@ pub fn position_eq(s: &[u8], v: u8) -> (r: Option<usize>)
         r is None ==> (forall|i: int| 0 <= i < s@.len() ==> s@[i] != v),
 {
     s.iter().position(|b| *b == v)
+}
+
+#[verifier::external_body]
+pub fn contains_byte(s: &[u8], v: u8) -> (r: bool)
+    ensures r == (exists|i: int| 0 <= i < s@.len() && s@[i] == v),
+{
+    s.contains(&v)
 }
 
 /// position counted from the end: r = number of trailing elements skipped before the first match
